@@ -8,6 +8,8 @@ from props import PROPS, NOT_APPLICABLE, HOOK_COMMITS
 checks = []
 for pid in sorted(PROPS):
     c = PROPS[pid]
+    if not c.get("ready"):
+        continue
     ID = pid.upper()
     checks.append({
         "property_id": ID,
@@ -23,7 +25,7 @@ for pid in sorted(PROPS):
 na = list(NOT_APPLICABLE)
 for i in range(1, 21):
     ID = "C%02d" % i
-    if ID.lower() not in PROPS and not any(x["property_id"] == ID for x in na):
+    if not PROPS.get(ID.lower(), {}).get("ready") and not any(x["property_id"] == ID for x in na):
         na.append({"property_id": ID, "reason": "check not built yet (work in progress; the design in DESIGN.md claims it)"})
 m = {
     "version": 1,
@@ -37,7 +39,7 @@ m = {
     },
     "engines": [{
         "name": "rocq-proof+correspondence", "path": "/verif/coq, /verif/extract, /verif/harness, /verif/tools/gosrc2v, /verif/bin/check",
-        "serves_properties": [p.upper() for p in sorted(PROPS)],
+        "serves_properties": [p.upper() for p in sorted(PROPS) if PROPS[p].get("ready")],
         "kind_free_text": "Coq 8.16.1 theorems over executable Gallina models; models tied to /repo on every run by a translator (tools/gosrc2v -> coq/Gen/*.v, re-checked obligations) and by a correspondence check (extracted OCaml models vs the Go implementation on generated cases); direct property evaluation as the search for a failing input",
     }],
     "checks": checks,
